@@ -12,7 +12,7 @@ From TK Require Import Mat_Sums Mat_Core Mat_Qc Mat_EigSelect EigSelect Mat_EigS
                        Mds_Model Mds_Spec Mds_Exec Mds_Proof Mds_Proof_Solver Mds_Proof_Qc
                        Mds_Proof_Isomap Dijkstra_Spec Spectral_KyFan Mds_Proof_Optimal Mds_Proof_Rank
                        Spectral_Randomized Mds_Spec_Wtol Mds_Model_Randomized Mds_Proof_Randomized Mds_Exec_Wave2
-                       Mds_Proof_OptimalClamped.
+                       Mds_Proof_OptimalClamped Mds_Model_Par Mds_Proof_Par.
 Import ListNotations.
 Local Open Scope nat_scope.
 
@@ -896,3 +896,64 @@ Example Mds_factor_optimal_clamped_nonvacuous :
   meq 1 1 (mmul 2 (mtrans exc_Q) exc_Q) mI /\
   (forall x : vec Qc, (0 <= qf 2 (lowrank 1 exc_Q exc_C) x)%Qc).
 Proof. exact exc_ok. Qed.
+
+(* 27. (wave 3) calling context.  compute_distance_matrix allocates an UNINITIALISED matrix and fills it in a
+   worksharing loop inside ITS OWN `#pragma omp parallel`: whatever the allocation contained (init), whatever the size
+   T >= 1 of the team the call gets (OMP_NUM_THREADS, OMP_THREAD_LIMIT, serial caller, caller inside its own parallel
+   region with nested parallelism off or on: all of that only changes T), the static schedule covers every row and
+   the matrix is the squared-distance matrix D2 of theorem 3. *)
+Theorem Mds_static_schedule_covers :
+  forall n T i : nat, 0 < T -> i < n -> In i (concat (static_shares n T)).
+Proof. exact static_shares_cover. Qed.
+Print Assumptions Mds_static_schedule_covers.
+
+Theorem Mds_distance_matrix_any_team :
+  forall (F : Type) (Fo : FieldOps F) (n T : nat) (dist init : mat F),
+    0 < T -> meq n n (cdm_own_team n dist T init) (dist_sq_matrix dist).
+Proof. exact cdm_own_team_full. Qed.
+Print Assumptions Mds_distance_matrix_any_team.
+
+(* any schedule (dynamic, guided, chunked) whose shares cover the rows *)
+Theorem Mds_distance_matrix_any_schedule :
+  forall (F : Type) (Fo : FieldOps F) (n : nat) (dist : mat F) (shares : list (list nat)) (init : mat F),
+    (forall i, i < n -> In i (concat shares)) ->
+    meq n n (team_fill n dist shares init) (dist_sq_matrix dist).
+Proof. exact @team_fill_full. Qed.
+Print Assumptions Mds_distance_matrix_any_schedule.
+
+Example Mds_distance_matrix_any_team_nonvacuous :
+  0 < 4 /\ (forall i, i < 5 -> In i (concat (static_shares 5 4))) /\
+  (static_shares 5 4 = [[0; 1]; [2]; [3]; [4]]) /\
+  (mtab 2 2 (cdm_own_team 2 (mof [[qz 0; qz 3]; [qz 7; qz 0]]) 2 (fun _ _ => qz 5)) = [[qz 0; qz 9]; [qz 9; qz 0]]).
+Proof.
+  split; [lia|]. split; [intros i Hi; apply static_shares_cover; lia|]. split; vm_compute; reflexivity.
+Qed.
+
+(* regression theorem for the orphaned worksharing loop (the `parallel` lost in a tidy-up): called by ONE thread of
+   the caller's team of T it executes that thread's share only; every position whose smaller index lies in another
+   share keeps the content of the allocation; with a serial caller (team of one) nothing changes. *)
+Theorem Mds_distance_matrix_orphaned_untouched :
+  forall (F : Type) (Fo : FieldOps F) (n T me : nat) (dist init : mat F) (a b : nat),
+    ~ In (Nat.min a b) (static_share n T me) ->
+    cdm_orphaned n dist T me init a b = init a b.
+Proof. exact cdm_orphaned_untouched. Qed.
+Print Assumptions Mds_distance_matrix_orphaned_untouched.
+
+Theorem Mds_distance_matrix_orphaned_refuted :
+  exists (n T me : nat) (dist init : mat Qc),
+    me < T /\ ~ meq n n (cdm_orphaned n dist T me init) (dist_sq_matrix dist).
+Proof. exact cdm_orphaned_refuted. Qed.
+Print Assumptions Mds_distance_matrix_orphaned_refuted.
+
+Theorem Mds_distance_matrix_orphaned_serial :
+  forall (F : Type) (Fo : FieldOps F) (n : nat) (dist init : mat F),
+    meq n n (cdm_orphaned n dist 1 0 init) (dist_sq_matrix dist).
+Proof. exact cdm_orphaned_serial_full. Qed.
+Print Assumptions Mds_distance_matrix_orphaned_serial.
+
+Example Mds_distance_matrix_orphaned_nonvacuous :
+  ~ In (Nat.min 1 1) (static_share 2 2 0) /\
+  (mtab 2 2 (cdm_orphaned 2 (mof [[qz 0; qz 3]; [qz 7; qz 0]]) 2 0 (fun _ _ => qz 5)) = [[qz 0; qz 9]; [qz 9; qz 5]]).
+Proof.
+  split; [vm_compute; intros [H|H]; [discriminate H|exact H]|vm_compute; reflexivity].
+Qed.
